@@ -22,7 +22,7 @@ pub fn algo_strategy() -> impl Strategy<Value = Algo> {
         Just(Algo::Fifo),
         prop_oneof![Just(0u8), Just(10), Just(50), Just(90), Just(100)].prop_map(|r| Algo::Lru { ratio_pct: r }),
         prop_oneof![Just((10u8, 80u8)), Just((30, 50)), Just((50, 40)), Just((1, 1))]
-            .prop_map(|(w, p)| Algo::Lfu { window_pct: w, protected_pct: p }),
+            .prop_map(|(w, p)| Algo::Lfu { window_pct: w, protected_pct: p, eps_milli: 1 }),
         (
             prop_oneof![Just(10u8), Just(25), Just(50)],
             prop_oneof![Just(0u8), Just(50), Just(100)],
